@@ -14,7 +14,7 @@ histogrammar.util.UserFcn.__reduce__.
 from .common import lib
 
 LEAVES = ("Count", "Sum", "Average", "Deviate", "Minimize", "Maximize", "Bag")
-FLAVOURS = ("lambda", "def", "str", "named", "cached", "named_cached", "named_str", "cached_str")
+FLAVOURS = ("lambda", "lambda_kw", "def", "str", "named", "cached", "named_cached", "named_str", "cached_str")
 
 # children slots per primitive: (slot name, kind) with kind in {"one", "list", "map"}
 SLOTS = {
@@ -71,11 +71,33 @@ def _lambda_src(q):
     raise ValueError(t)
 
 
+def _inline_src(q):
+    """The quantity as users write it: constants and field names inline (same float operations as _lambda_src)."""
+    t = q["t"]
+    if t == "num":
+        a, b = q.get("a", 1.0), q.get("b", 0.0)
+        if a == 1.0 and b == 0.0:
+            return f"lambda d: d[{q['col']!r}]"
+        return f"lambda d: {a!r} * d[{q['col']!r}] + {b!r}"
+    if t == "gt":
+        return f"lambda d: d[{q['col']!r}] > {q['thr']!r}"
+    if t == "cat":
+        return f"lambda d: d[{q['col']!r}]"
+    if t == "pair":
+        c0, c1 = q["cols"]
+        return f"lambda d: (d[{c0!r}], d[{c1!r}])"
+    raise ValueError(t)
+
+
 def make_callable(q, flavour=None):
-    """A bare Python function or a string for quantity q (before any histogrammar wrapper)."""
+    """A bare Python function or a string for quantity q (before any histogrammar wrapper).  Flavour 'lambda' has its
+    constants and field names inline (many quantities of one tree then share their bytecode and differ in constants
+    only); 'lambda_kw' and 'def' carry them as default arguments."""
     fl = flavour or q.get("fl", "lambda")
     if fl in ("str", "named_str", "cached_str"):
         return qexpr(q)
+    if fl in ("lambda", "named", "cached", "named_cached"):
+        return eval(_inline_src(q), {})  # noqa: S307
     src = _lambda_src(q)
     if fl == "def":
         head, body = src.split(":", 1)
